@@ -122,21 +122,21 @@ def whenLayout : List (Variant Bool) := [⟨true, "True", false, false⟩, ⟨fa
 /-- `CelError` with its payload. -/
 inductive CErr
   | misc (m : Str)
-  | syntax (line col : Nat) (msg : Option Str)
+  | syn (line col : Nat) (msg : Option Str)
   | value (m : Str)
   | argument (m : Str)
   | invalidOp (m : Str)
   | runtime (m : Str)
   | binding (sym : Str)
-  | attribute (parent field : Str)
+  | attr (parent field : Str)
   | divZero
   | internal (m : Str)
   deriving DecidableEq, Repr
 
 def CErr.kind : CErr → ErrKind
-  | .misc _ => .misc | .syntax .. => .syntax | .value _ => .value | .argument _ => .argument
+  | .misc _ => .misc | .syn .. => .syntax | .value _ => .value | .argument _ => .argument
   | .invalidOp _ => .invalidOp | .runtime _ => .runtime | .binding _ => .binding
-  | .attribute .. => .attribute | .divZero => .divZero | .internal _ => .internal
+  | .attr .. => .attribute | .divZero => .divZero | .internal _ => .internal
 
 mutual
 inductive CVal
@@ -206,9 +206,9 @@ def fitsU32 (n : Nat) : Bool := decide (n < 4294967296)
 
 def fitsErr : CErr → Bool
   | .misc m | .value m | .argument m | .invalidOp m | .runtime m | .internal m | .binding m => fitsStr m
-  | .syntax l c none => fitsLen l && fitsLen c
-  | .syntax l c (some m) => fitsLen l && fitsLen c && fitsStr m
-  | .attribute p f => fitsStr p && fitsStr f
+  | .syn l c none => fitsLen l && fitsLen c
+  | .syn l c (some m) => fitsLen l && fitsLen c && fitsStr m
+  | .attr p f => fitsStr p && fitsStr f
   | .divZero => true
 
 mutual
@@ -441,13 +441,13 @@ def tagW (t : Bool) : List UInt8 := u32le (declIdx whenLayout t)
 
 def encErr : CErr → List UInt8
   | .misc m => tagE .eMisc ++ encStr m
-  | .syntax l c m => tagE .eSyntax ++ u64le l ++ u64le c ++ encOptStr m
+  | .syn l c m => tagE .eSyntax ++ u64le l ++ u64le c ++ encOptStr m
   | .value m => tagE .eValue ++ encStr m
   | .argument m => tagE .eArgument ++ encStr m
   | .invalidOp m => tagE .eInvalidOp ++ encStr m
   | .runtime m => tagE .eRuntime ++ encStr m
   | .binding s => tagE .eBinding ++ encStr s
-  | .attribute p f => tagE .eAttribute ++ encStr p ++ encStr f
+  | .attr p f => tagE .eAttribute ++ encStr p ++ encStr f
   | .divZero => tagE .eDivideByZero
   | .internal m => tagE .eInternal ++ encStr m
 
@@ -463,7 +463,7 @@ def rdErr (bs : List UInt8) : Option (CErr × List UInt8) :=
        | some (l, bs) =>
          match rdU64 bs with
          | none => none
-         | some (c, bs) => (rdOptStr bs).map fun (m, bs) => (.syntax l c m, bs))
+         | some (c, bs) => (rdOptStr bs).map fun (m, bs) => (.syn l c m, bs))
     | some .eValue => (rdStr bs).map fun (m, bs) => (.value m, bs)
     | some .eArgument => (rdStr bs).map fun (m, bs) => (.argument m, bs)
     | some .eInvalidOp => (rdStr bs).map fun (m, bs) => (.invalidOp m, bs)
@@ -472,7 +472,7 @@ def rdErr (bs : List UInt8) : Option (CErr × List UInt8) :=
     | some .eAttribute =>
       (match rdStr bs with
        | none => none
-       | some (p, bs) => (rdStr bs).map fun (f, bs) => (.attribute p f, bs))
+       | some (p, bs) => (rdStr bs).map fun (f, bs) => (.attr p f, bs))
     | some .eDivideByZero => some (.divZero, bs)
     | some .eInternal => (rdStr bs).map fun (m, bs) => (.internal m, bs)
     | none => none
@@ -697,13 +697,13 @@ def decJOptStr : J → Option (Option Str)
 
 def encJErr : CErr → J
   | .misc m => tagged (nameE .eMisc) (.str m)
-  | .syntax l c m => tagged (nameE .eSyntax) (.obj [(kLoc, .arr [.int l, .int c]), (kMessage, encJOptStr m)])
+  | .syn l c m => tagged (nameE .eSyntax) (.obj [(kLoc, .arr [.int l, .int c]), (kMessage, encJOptStr m)])
   | .value m => tagged (nameE .eValue) (.str m)
   | .argument m => tagged (nameE .eArgument) (.str m)
   | .invalidOp m => tagged (nameE .eInvalidOp) (.str m)
   | .runtime m => tagged (nameE .eRuntime) (.str m)
   | .binding s => tagged (nameE .eBinding) (.obj [(kSymbol, .str s)])
-  | .attribute p f => tagged (nameE .eAttribute) (.obj [(kParent, .str p), (kField, .str f)])
+  | .attr p f => tagged (nameE .eAttribute) (.obj [(kParent, .str p), (kField, .str f)])
   | .divZero => .str (nameE .eDivideByZero)
   | .internal m => tagged (nameE .eInternal) (.str m)
 
@@ -713,14 +713,14 @@ def decJErr : J → Option CErr
     (match tagOfName errLayout k, p with
      | some .eMisc, .str m => some (.misc m)
      | some .eSyntax, .obj [(k1, .arr [.int l, .int c]), (k2, m)] =>
-       if k1 = kLoc ∧ k2 = kMessage ∧ inU64 l ∧ inU64 c then (decJOptStr m).map (.syntax l.toNat c.toNat) else none
+       if k1 = kLoc ∧ k2 = kMessage ∧ inU64 l ∧ inU64 c then (decJOptStr m).map (.syn l.toNat c.toNat) else none
      | some .eValue, .str m => some (.value m)
      | some .eArgument, .str m => some (.argument m)
      | some .eInvalidOp, .str m => some (.invalidOp m)
      | some .eRuntime, .str m => some (.runtime m)
      | some .eBinding, .obj [(k1, .str s)] => if k1 = kSymbol then some (.binding s) else none
      | some .eAttribute, .obj [(k1, .str p), (k2, .str f)] =>
-       if k1 = kParent ∧ k2 = kField then some (.attribute p f) else none
+       if k1 = kParent ∧ k2 = kField then some (.attr p f) else none
      | some .eInternal, .str m => some (.internal m)
      | _, _ => none)
   | _ => none
